@@ -387,11 +387,40 @@ func runC45(c *Ctx) {
 			}
 		}
 		c.Check(amounts != nil, "pot-split", ck+":distributes-stored-amounts", distCall.Pos(), "each stored pool amount is what gets distributed", "the amount distributed per pool is "+shortArg(amtT)+", not a value of the pool-amount map")
+		// the amounts may be allocated by a helper that receives the pot and returns the map: the same rules are then
+		// read in the helper, with the pot being the parameter bound to pots.Rewards
+		scanFn, scanMap := calc, amounts
+		isPot := func(v ssa.Value) bool { return strings.HasPrefix(trace(v), "Rewards<") }
+		inHelper := false
+		if call, isCall := amounts.(*ssa.Call); isCall && amounts != nil {
+			if h := samePkgHelper(calc, &call.Call); h != nil {
+				var ret ssa.Value
+				n := 0
+				for _, hb := range h.Blocks {
+					if hr, ok := hb.Instrs[len(hb.Instrs)-1].(*ssa.Return); ok && len(hr.Results) == 1 {
+						ret = hr.Results[0]
+						n++
+					}
+				}
+				potIdx := -1
+				for i, a := range call.Call.Args {
+					if strings.HasPrefix(trace(a), "Rewards<") {
+						potIdx = i
+					}
+				}
+				if n != 1 || potIdx < 0 {
+					c.Undecided("%s: the per-pool amounts are allocated in helper %s in a shape the pot-split rules do not read", ck, h.Name())
+				}
+				scanFn, scanMap, inHelper = h, ret, true
+				potParam := h.Params[potIdx]
+				isPot = func(v ssa.Value) bool { return v == ssa.Value(potParam) }
+			}
+		}
 		if amounts != nil {
 			nStore, okCap, okSum, okRem := 0, false, false, false
-			for _, in := range fnInstrs(calc) {
+			for _, in := range fnInstrs(scanFn) {
 				mu, ok := in.(*ssa.MapUpdate)
-				if !ok || mu.Map != amounts {
+				if !ok || mu.Map != scanMap {
 					continue
 				}
 				nStore++
@@ -406,8 +435,8 @@ func runC45(c *Ctx) {
 					}
 				}
 				if bo, ok := mu.Value.(*ssa.BinOp); ok && bo.Op == token.ADD {
-					if d, ok := bo.Y.(*ssa.BinOp); ok && d.Op == token.SUB && strings.HasPrefix(trace(d.X), "Rewards<") {
-						okRem = strings.HasPrefix(trace(bo.X), "lookup(") && distCallAfter(calc, mu, distCall)
+					if d, ok := bo.Y.(*ssa.BinOp); ok && d.Op == token.SUB && isPot(d.X) {
+						okRem = strings.HasPrefix(trace(bo.X), "lookup(") && (inHelper || distCallAfter(calc, mu, distCall))
 					}
 				}
 			}
